@@ -12,12 +12,15 @@ canonicalised back to packed bytes with socket.inet_pton. A second stream feeds 
 (no specification: implementation vs model only).
 """
 import ast
+import contextlib
+import errno as _errno
 import json
 import os
 import socket
 import struct
 import subprocess
 import sys
+import warnings
 
 from harness.common import extract
 from harness.common.build import PY, InfraError
@@ -246,11 +249,28 @@ def py_render(world):
 
 
 def render_target(t):
+    """abstract descriptor -> what the fake tree holds: bytes (link text) | None (a regular file: readlink gives a
+    real EINVAL) | ("E", errno) (readlink is made to fail with that errno)"""
     if t is None:
         return None
     if "s" in t:
         return b"socket:[%d]" % t["s"]
+    if "e" in t:
+        return ("E", t["e"])
     return bytes.fromhex(t["o"])
+
+
+def render_listing(fds):
+    """abstract listing -> None (no fd directory: a real ENOENT) | ("E", errno) (listdir is made to fail) | entries"""
+    if fds is None:
+        return None
+    if isinstance(fds, dict):
+        return ("E", fds["err"])
+    return [[fd, render_target(t)] for fd, t in fds]
+
+
+def errno_num(e):
+    return getattr(_errno, e) if isinstance(e, str) else int(e)
 
 
 # ------------------------------------------------------------------------------ implementation side
@@ -283,14 +303,25 @@ class Impl:
             if data is not None:
                 fp.write("net/" + n, data)
         tmap = {}
+        self.link_faults = {}      # path handed to os.readlink -> errno
+        self.list_faults = {}      # path handed to os.listdir  -> errno
         for pid, fds in procs:
             fp.write("%d/stat" % pid, STAT % pid)
             if fds is None:
                 continue
             fp.mkdir("%d/fd" % pid)
+            if isinstance(fds, tuple):
+                # listdir will be made to fail; a decoy socket link shows up if the injection is lost
+                fp.symlink("%d/fd/3" % pid, self.decoy)
+                self.list_faults["%s/%d/fd" % (fp.root, pid)] = errno_num(fds[1])
+                tmap[pid] = fds
+                continue
             for fd, tgt in fds:
                 if tgt is None:
                     fp.write("%d/fd/%d" % (pid, fd), b"")       # not a link: readlink -> EINVAL -> skipped
+                elif isinstance(tgt, tuple):
+                    fp.symlink("%d/fd/%d" % (pid, fd), self.decoy)
+                    self.link_faults["%s/%d/fd/%d" % (fp.root, pid, fd)] = errno_num(tgt[1])
                 else:
                     fp.symlink("%d/fd/%d" % (pid, fd), tgt)
             tmap[pid] = dict(fds)
@@ -302,9 +333,61 @@ class Impl:
             fdir = os.path.join(fp.root, name, "fd")
             if not os.path.isdir(fdir):
                 listed.append([pid, None])
+            elif isinstance(tmap[pid], tuple):
+                listed.append([pid, tmap[pid]])
             else:
                 listed.append([pid, [[int(f), tmap[pid][int(f)]] for f in os.listdir(fdir)]])
         return listed
+
+    decoy = b"socket:[1]"
+
+    @contextlib.contextmanager
+    def injected(self, env):
+        """Fault injection from outside the repository: os.readlink / os.listdir fail with the scripted errno on
+        the scripted paths (every other path reaches the real call); `env["ntop6"]` makes socket.inet_ntop behave
+        like a Python built without IPv6 (ValueError for AF_INET6), `env["supv6"]` decides supports_ipv6()."""
+        real_readlink, real_listdir = os.readlink, os.listdir
+        link_faults, list_faults = self.link_faults, self.list_faults
+        hits = self.fault_hits = {"readlink": 0, "listdir": 0, "ntop6": 0}
+
+        def readlink(path, *a, **kw):
+            e = link_faults.get(path)
+            if e is not None:
+                hits["readlink"] += 1
+                raise OSError(e, os.strerror(e), path)
+            return real_readlink(path, *a, **kw)
+
+        def listdir(path=".", *a, **kw):
+            e = list_faults.get(path)
+            if e is not None:
+                hits["listdir"] += 1
+                raise OSError(e, os.strerror(e), path)
+            return real_listdir(path, *a, **kw)
+        os.readlink, os.listdir = readlink, listdir
+        lin = self.ps._pslinux
+        saved = (socket.inet_ntop, socket.has_ipv6, lin.supports_ipv6)
+        sup = self.ps._common.supports_ipv6
+        try:
+            if env.get("ntop6"):
+                real_ntop = socket.inet_ntop
+
+                def inet_ntop(af, packed):
+                    if af == socket.AF_INET6:
+                        hits["ntop6"] += 1
+                        raise ValueError("unknown address family %d" % af)
+                    return real_ntop(af, packed)
+                socket.inet_ntop = inet_ntop
+                sup.cache_clear()
+                if env.get("supv6", True):
+                    lin.supports_ipv6 = lambda: True
+                else:
+                    socket.has_ipv6 = False          # the real supports_ipv6() then answers False
+            yield
+        finally:
+            os.readlink, os.listdir = real_readlink, real_listdir
+            socket.inet_ntop, socket.has_ipv6, lin.supports_ipv6 = saved
+            if env.get("ntop6"):
+                sup.cache_clear()
 
     def canon_row(self, r):
         fam, typ = int(r.family), int(r.type)
@@ -319,14 +402,84 @@ class Impl:
         return {"fd": int(r.fd), "family": fam, "type": typ, "laddr": addr(r.laddr), "raddr": addr(r.raddr),
                 "status": str(r.status), "pid": getattr(r, "pid", None)}
 
-    def query(self, q):
+    def _call(self, q, mode):
+        """The raw front-end call in one of the call modes (no mode may change the answer)."""
+        ps = self.ps
+        kind, pid = q["kind"], q.get("pid")
+        if pid is None:
+            if mode == "plain":
+                return ps.net_connections(kind)
+            if mode == "second":
+                first = ps.net_connections(kind)
+                second = ps.net_connections(kind)
+                if sorted(map(repr, first)) != sorted(map(repr, second)):
+                    raise AssertionError("second call differs from the first")
+                return second
+            if mode == "oneshot_open":
+                # oneshot() blocks open (and warm) on Process objects of the listed processes
+                with contextlib.ExitStack() as st:
+                    for name in sorted(os.listdir(self.fp.root)):
+                        if name.isdigit():
+                            try:
+                                p = ps.Process(int(name))
+                                st.enter_context(p.oneshot())
+                                p.ppid(), p.name(), p.status()
+                            except ps.Error:
+                                pass
+                    return ps.net_connections(kind)
+            raise AssertionError("unknown mode " + mode)
+        if mode == "process_iter":
+            found = [p for p in ps.process_iter() if p.pid == pid]
+            if len(found) != 1:
+                raise AssertionError("process_iter() yielded PID %d %d times" % (pid, len(found)))
+            return found[0].net_connections(kind)
+        p = ps.Process(pid)
+        if mode == "plain":
+            return p.net_connections(kind)
+        if mode == "oneshot":
+            with p.oneshot():
+                return p.net_connections(kind)
+        if mode == "oneshot_warm":
+            with p.oneshot():
+                p.ppid(), p.name(), p.status(), p.cpu_times()
+                return p.net_connections(kind)
+        if mode == "second":
+            try:
+                first = ("rows", sorted(map(repr, p.net_connections(kind))))
+            except Exception as e:  # noqa: BLE001
+                first = ("exc", type(e).__name__)
+            try:
+                rows = p.net_connections(kind)
+                second = ("rows", sorted(map(repr, rows)))
+            except Exception as e:  # noqa: BLE001
+                if first != ("exc", type(e).__name__):
+                    raise AssertionError("second call differs from the first") from e
+                raise
+            if first != second:
+                raise AssertionError("second call differs from the first")
+            return rows
+        if mode == "deprecated_alias":
+            with warnings.catch_warnings():
+                warnings.simplefilter("ignore")
+                return p.connections(kind)
+        if mode == "as_dict":
+            # as_dict() can only ask for the default kind
+            if kind != "inet":
+                raise AssertionError("as_dict mode needs kind 'inet'")
+            missing = object()
+            d = p.as_dict(attrs=["net_connections"], ad_value=missing)
+            if set(d) != {"net_connections"}:
+                raise AssertionError("as_dict keys %r" % sorted(d))
+            if d["net_connections"] is missing:
+                raise ps.AccessDenied(pid)               # as_dict() swallowed it
+            return d["net_connections"]
+        raise AssertionError("unknown mode " + mode)
+
+    def query(self, q, env=None, mode="plain"):
         """Run the real front end; every exception becomes an observable."""
         try:
-            kind = q["kind"]
-            if q.get("pid") is None:
-                rows = self.ps.net_connections(kind)
-            else:
-                rows = self.ps.Process(q["pid"]).net_connections(kind)
+            with self.injected(env or {}):
+                rows = self._call(q, mode)
             names = sorted({type(r).__name__ for r in rows})
             canon = sorted((self.canon_row(r) for r in rows), key=_rowkey)
             out = {"kind": "rows", "rows": canon}
@@ -346,9 +499,26 @@ class Impl:
                     name = nm
                     break
             d = {"kind": "exc", "exc": name}
-            if getattr(e, "pid", None) is not None and name not in [b[0] for b in EXC_BASES]:
+            if isinstance(e, AssertionError):
+                d["why"] = str(e)
+            if getattr(e, "pid", None) is not None and name not in [b[0] for b in EXC_BASES] \
+                    and e.pid != q.get("pid"):
                 d["pid"] = e.pid
             return d
+
+    def query_modes(self, q, env=None):
+        """-> [(mode, outcome)] for every mode the query asks for (default: the plain call)"""
+        return [(m, self.query(q, env, m)) for m in q.get("modes") or ["plain"]]
+
+
+SYS_MODES = ["plain", "second", "oneshot_open"]
+PROC_MODES = ["plain", "oneshot", "oneshot_warm", "second", "process_iter", "deprecated_alias", "as_dict"]
+
+
+def modes_for(q):
+    if q.get("pid") is None:
+        return list(SYS_MODES)
+    return [m for m in PROC_MODES if m != "as_dict" or q["kind"] == "inet"]
 
 
 def _rowkey(r):
@@ -366,6 +536,8 @@ def canon_model(m):
 
 def py_accepts(spec, impl):
     """Does the implementation's outcome satisfy the promise printed by the driver? -> (bool, why)"""
+    if spec["kind"] == "unspecified":
+        return True, ""
     if spec["kind"] == "exc":
         ok = impl.get("kind") == "exc" and impl.get("exc") == spec["exc"]
         return ok, "" if ok else "expected %s" % spec["exc"]
@@ -418,7 +590,9 @@ V6 = ["00000000000000000000000000000000", "00000000000000000000000000000001",
 PORTS = [0, 0, 1, 22, 80, 255, 256, 443, 631, 8080, 32768, 40521, 65535]
 PATHS = [None, None, b"/run/x.sock", b"/tmp/my sock", b"@abstract", b"@", b"@/tmp/dbus-Qw2hMPIU3n", b"/tmp/a  b", b" lead",
          b"trail ", b" ", b"  ", b"/tmp/tab\there", b"/a b c d e f", b"/tmp/\xc3\xa9t\xc3\xa9", b"/tmp/\xff\xfe", b"@with@nul@",
-         b"x", b"/tmp/.X11-unix/X0", b"@a b", b"/v\x0bt", b"/f\x0cf", b"/u\x1cs", b"/nbsp\xc2\xa0x", b"/nel\xc2\x85x", b"12345", b"0001 01 7"]
+         b"x", b"/tmp/.X11-unix/X0", b"@a b", b"/v\x0bt", b"/f\x0cf", b"/u\x1cs", b"/nbsp\xc2\xa0x", b"/nel\xc2\x85x", b"12345", b"0001 01 7",
+         # carriage returns: open_text() reads with newline="\n", so "\r" is an ordinary character of the name
+         b"/tmp/cr\rx", b"\rlead", b"trail\r", b"\r", b"/a\r b", b"@\r\r", b" \r "]
 OTHERS = [b"/dev/null", b"pipe:[4242]", b"anon_inode:[eventpoll]", b"/tmp/with space", b"socket:[", b"socket", b"/socket:[12]",
           b"anon_inode:[eventfd]", b"/dev/pts/0"]
 
@@ -448,7 +622,7 @@ def gen_sock(rng, cls, inode, family_bias=None):
         p = rng.choice(PATHS)
         if rng.random() < 0.15:
             n = rng.randrange(1, 12)
-            p = bytes(rng.choice(b"abc /@._-\t\xe9\xff") for _ in range(n))
+            p = bytes(rng.choice(b"abc /@._-\t\r\xe9\xff") for _ in range(n))
         s["path"] = None if p is None else p.hex()
         s["state"] = rng.choice([1, 3, 1, 2])
     else:
@@ -459,13 +633,17 @@ def gen_sock(rng, cls, inode, family_bias=None):
 
 
 def gen_world(rng, family):
-    v6 = rng.random() > 0.1
+    v6 = rng.random() > 0.1 or family == "nov6"
     npid = rng.choice([0, 1, 2, 2, 3, 4])
+    if family in ("faults", "fatal", "listerr"):
+        npid = rng.choice([1, 2, 3, 4])
     pids = rng.sample([1, 2, 7, 10, 20, 99, 100, 101, 1234, 32768, 4194304], npid)
     nsock = rng.choice([0, 1, 2, 3, 4, 5, 6, 8, 10])
     if family == "big":
         nsock = rng.randrange(10, 25)
     classes = [c for c in CLASSES if v6 or c[0] != "inet6"]
+    if family == "nov6" and rng.random() < 0.7:
+        classes = [c for c in classes if c[0] == "inet6"] * 3 + classes
     if family == "unix_paths":
         classes = [c for c in classes if c[0] == "unix"]
     elif family == "addresses":
@@ -514,25 +692,63 @@ def gen_world(rng, family):
                 else:
                     t = None
                 fds[p][new_fd(p)] = t
+    fault_family = family in ("faults", "fatal", "listerr")
+    if fault_family and pids:
+        # descriptor races and errors: readlink fails on some descriptors (the world keeps no record of what they
+        # referred to: a failing descriptor contributes nothing)
+        pal = LINK_VANISHED * 3 + LINK_DENIED if family != "fatal" else LINK_VANISHED + LINK_DENIED + LINK_FATAL * 3
+        for p in pids:
+            for fd in list(fds[p]):
+                if rng.random() < (0.25 if family != "listerr" else 0.05):
+                    fds[p][fd] = {"e": rng.choice(pal)}
+            for _ in range(rng.choice([0, 0, 1, 2])):
+                fds[p][new_fd(p)] = {"e": rng.choice(pal)}
     procs = []
     for p in pids:
         if p in unlistable:
             procs.append([p, None])
+        elif fault_family and rng.random() < (0.5 if family == "listerr" else 0.1):
+            procs.append([p, {"err": rng.choice(LIST_SKIPPED * 3 + (LIST_FATAL if family != "faults" else []))}])
         else:
             items = list(fds[p].items())
             rng.shuffle(items)
             procs.append([p, [[fd, t] for fd, t in items]])
-    return {"socks": socks, "procs": procs, "v6": v6}
+    w = {"socks": socks, "procs": procs, "v6": v6}
+    if family == "nov6":
+        # a Python that cannot format IPv6 addresses; mostly supports_ipv6() is false as well
+        w["ntop6"] = True
+        w["supv6"] = rng.random() < 0.15
+    return w
 
 
-def gen_queries(rng, world, n=3):
+LINK_VANISHED = ["ENOENT", "ESRCH", "EINVAL", "ENAMETOOLONG"]
+LINK_DENIED = ["EACCES", "EPERM"]
+LINK_FATAL = [5, 12, 40]                 # EIO, ENOMEM, ELOOP
+LIST_SKIPPED = ["ENOENT", "ESRCH", "EACCES", "EPERM"]
+LIST_FATAL = [5, 24, 12, "EINVAL"]        # EIO, EMFILE, ENOMEM; EINVAL is not caught for listdir
+
+
+def world_env(world):
+    return {"ntop6": bool(world.get("ntop6")), "supv6": bool(world.get("supv6", True))}
+
+
+def gen_queries(rng, world, n=3, family=None):
+    """Every query is made in one call mode drawn at random (plain call, oneshot() fresh / warm, as_dict(),
+    the object process_iter() yields, a second call, the deprecated alias; system-wide: while oneshot() blocks
+    are open). No mode may change the answer: the model side does not know the mode."""
     qs = [{"kind": "all", "pid": None}]
-    listable = [p for p, f in world["procs"] if f is not None]
+    listable = [p for p, f in world["procs"] if isinstance(f, list)]
+    faulty = family in ("faults", "fatal", "listerr")
+    anyproc = [p for p, f in world["procs"] if f is not None] if faulty else listable
     for _ in range(n - 1):
         r = rng.random()
         kind = rng.choice(KINDS) if r < 0.93 else rng.choice(BOGUS)
-        pid = rng.choice(listable) if listable and rng.random() < 0.45 else None
+        if rng.random() < 0.25:
+            kind = "inet"                              # the only kind as_dict() can ask for
+        pid = rng.choice(anyproc) if anyproc and rng.random() < (0.6 if faulty else 0.45) else None
         qs.append({"kind": kind, "pid": pid})
+    for q in qs:
+        q["modes"] = [rng.choice(modes_for(q))]
     return qs
 
 
@@ -577,6 +793,44 @@ def exhaustive_world():
         add(("inet6", 1), [], state=st)
     return {"socks": socks, "v6": True,
             "procs": [[p, [[fd, t] for fd, t in sorted(f.items())]] for p, f in sorted(procs.items())]}
+
+
+def faults_world():
+    """Every socket class held through descriptors next to failing ones: one process per readlink errno class
+    (vanished x4, denied x2, fatal), one process per listdir outcome, one clean process."""
+    socks = []
+    inode = [7000]
+
+    def sock(cls):
+        inode[0] += 1
+        s = {"fam": cls[0], "typ": cls[1], "lip": "", "lport": 0, "rip": "", "rport": 0, "state": 1, "path": None,
+             "inode": inode[0], "txq": 0, "rxq": 0, "uid": 1000, "refcnt": 2, "flags": 0}
+        if cls[0] == "inet4":
+            s.update(lip="7f000001", lport=2000 + len(socks), rip="0a000005", rport=0)
+        if cls[0] == "inet6":
+            s.update(lip="00000000000000000000ffff7f000001", lport=2000 + len(socks),
+                     rip="fe800000000000000000000000000001", rport=443)
+        if cls[0] == "unix":
+            s.update(path=("/run/f%d" % len(socks)).encode().hex())
+        if cls[1] == 2 and cls[0] != "unix":
+            s["state"] = 7
+        socks.append(s)
+        return s["inode"]
+    procs = []
+    pid = 100
+    shared = sock(("unix", 1))
+    for e in LINK_VANISHED + LINK_DENIED + [5]:
+        pid += 1
+        own = [sock(c) for c in (("inet4", 1), ("inet6", 2), ("unix", 2))]
+        fds = [[3, {"s": own[0]}], [4, {"e": e}], [5, {"s": own[1]}], [6, {"s": shared}], [7, {"s": own[2]}]]
+        procs.append([pid, fds])
+    for e in LIST_SKIPPED + [5, 24, "EINVAL"]:
+        pid += 1
+        sock(("inet4", 2))
+        procs.append([pid, {"err": e}])
+    procs.append([pid + 1, [[3, {"s": shared}], [4, {"s": sock(("inet6", 1))}]]])
+    procs.append([pid + 2, [[0, {"e": "ENOENT"}], [1, {"e": "ESRCH"}]]])       # only vanished descriptors: no sockets
+    return {"socks": socks, "procs": procs, "v6": True}
 
 
 # ------------------------------------------------------------------------------ malformed stream (impl vs model only)
@@ -647,18 +901,31 @@ def mutate_files(rng, files):
 
 def world_line(world, listed, queries):
     """Driver input: the world with descriptor tables in the order the implementation lists them."""
-    return {"op": "world", "socks": world["socks"], "procs": listed, "v6": world["v6"], "queries": queries}
+    env = world_env(world)
+    return {"op": "world", "socks": world["socks"], "procs": listed, "v6": world["v6"], "ntop6": env["ntop6"],
+            "supv6": env["supv6"], "queries": [{"kind": q["kind"], "pid": q.get("pid")} for q in queries]}
 
 
 def features(world, listed):
     f = set()
     holders = {}
     for pid, fds in listed:
-        for fd, t in (fds or []):
-            if t and "s" in t:
-                holders.setdefault(t["s"], []).append((pid, fd))
         if fds is None:
             f.add("proc:unlistable")
+            continue
+        if isinstance(fds, dict):
+            f.add("listdir:%s" % fds["err"])
+            continue
+        denied = any(t and t.get("e") in LINK_DENIED for _, t in fds)
+        for fd, t in fds:
+            if t and "s" in t and not denied:
+                holders.setdefault(t["s"], []).append((pid, fd))
+            if t and "e" in t:
+                f.add("readlink:%s" % t["e"])
+        if denied:
+            f.add("proc:denied-by-readlink")
+    if world.get("ntop6"):
+        f.add("env:ntop6-fails/supports_ipv6=%s" % bool(world.get("supv6", True)))
     for s in world["socks"]:
         f.add("class:%s/%d" % (s["fam"], s["typ"]))
         h = holders.get(s["inode"], [])
@@ -683,17 +950,40 @@ def features(world, listed):
     return f
 
 
+def stage_world(impl, world):
+    """Build the fake tree for `world`; -> (files, listed) with `listed` = the descriptor tables in the order
+    the implementation will list them, abstract targets."""
+    files = py_render(world)
+    procs_b = [[pid, render_listing(fds)] for pid, fds in world["procs"]]
+    socks = [s["inode"] for s in world["socks"] if s["inode"]]
+    impl.decoy = b"socket:[%d]" % (socks[0] if socks else 1)
+    listed_b = impl.build(files, procs_b)
+    tmap = {pid: (dict((fd, t) for fd, t in fds) if isinstance(fds, list) else fds) for pid, fds in world["procs"]}
+    listed = [[pid, [[fd, tmap[pid][fd]] for fd, _ in fds] if isinstance(fds, list) else tmap[pid]] for pid, fds in listed_b]
+    return files, listed
+
+
+def compare(im, mo):
+    """implementation outcome vs model outcome (same canonical form)"""
+    im_c = dict(im)
+    if im_c.get("kind") == "rows" and not im_c["rows"]:
+        im_c.pop("ntuple", None)
+    return im_c == mo
+
+
 def run_worlds(ctx, impl, items, res, tag_prefix=""):
-    """items: [(tag, world, queries_fn)] — executes impl, then one driver batch, then compares."""
+    """items: [(tag, world, queries)] — executes impl (every query in each of its modes), then one driver batch,
+    then compares."""
     staged = []
     for tag, world, queries in items:
-        files = py_render(world)
-        procs_b = [[pid, None if fds is None else [[fd, render_target(t)] for fd, t in fds]] for pid, fds in world["procs"]]
-        listed_b = impl.build(files, procs_b)
-        # map listing back to abstract targets
-        tmap = {pid: (None if fds is None else dict((fd, t) for fd, t in fds)) for pid, fds in world["procs"]}
-        listed = [[pid, None if fds is None else [[fd, tmap[pid][fd]] for fd, _ in fds]] for pid, fds in listed_b]
-        outs = [impl.query(q) for q in queries]
+        files, listed = stage_world(impl, world)
+        env = world_env(world)
+        outs = []
+        for q in queries:
+            outs.append(impl.query_modes(q, env))
+            for k, v in impl.fault_hits.items():
+                if v:
+                    res.count("injected:" + k, v)
         staged.append((tag, world, listed, queries, files, outs))
     lines = [world_line(w, listed, qs) for _, w, listed, qs, _, _ in staged]
     drv = ctx.driver()
@@ -714,59 +1004,66 @@ def run_worlds(ctx, impl, items, res, tag_prefix=""):
             res.count("world:" + f)
         res.count("family:" + tag)
         res.count("sockets", len(world["socks"]))
-        for q, im, r in zip(queries, outs, ans["results"]):
-            inp = {"world": dict(world, procs=listed), "query": q, "source": tag}
+        for q, ims, r in zip(queries, outs, ans["results"]):
             mo = canon_model(r["model"])
             sp = r["spec"]
             res.count("query:%s/%s" % (q["kind"] if q["kind"] in KINDS else "<other>", "proc" if q["pid"] is not None else "sys"))
             nexp = len(sp.get("expects", [])) if sp["kind"] == "expects" else -1
-            res.count("expect:" + ("ValueError" if nexp < 0 else "0 rows" if nexp == 0 else "rows"))
-            res.case((world["socks"], listed, q), nontrivial=nexp != 0,
-                     sample={"query": q, "sockets": len(world["socks"]), "impl_rows": im.get("rows", im)[:2] if im.get("kind") == "rows" else im}
-                     if res.evaluations in (3, 40, 200) else None)
-            ok, why = py_accepts(sp, im)
-            fid = None
-            if not ok:
-                res.disagree("spec", inp, im, mo, sp, note=why, finding=fid)
-                continue
-            if not r["accepts"]:
-                res.disagree("model", inp, im, mo, sp, note="the Lean model's rows are not accepted by the specification (C11_rows_exact would be contradicted)")
-                continue
-            im_c = dict(im)
-            if im_c.get("kind") == "rows" and not im_c["rows"]:
-                im_c.pop("ntuple", None)
-            if im_c != mo:
-                res.disagree("model", inp, im, mo, sp, note="implementation differs from the Lean model (both satisfy the specification)")
+            res.count("expect:" + ("unspecified (impl vs model)" if sp["kind"] == "unspecified" else
+                                   "ValueError" if nexp < 0 else "0 rows" if nexp == 0 else "rows"))
+            if mo.get("kind") == "exc":
+                res.count("outcome:" + mo["exc"])
+            for mode, im in ims:
+                inp = {"world": dict(world, procs=listed), "query": dict(q, modes=[mode]), "source": tag}
+                res.count("mode:%s/%s" % ("proc" if q["pid"] is not None else "sys", mode))
+                res.case((world["socks"], listed, world_env(world), q["kind"], q["pid"], mode), nontrivial=nexp != 0,
+                         sample={"query": q, "mode": mode, "sockets": len(world["socks"]),
+                                 "impl_rows": im.get("rows", im)[:2] if im.get("kind") == "rows" else im}
+                         if res.evaluations in (3, 40, 200) else None)
+                ok, why = py_accepts(sp, im)
+                if not ok:
+                    res.disagree("spec", inp, im, mo, sp, note="%s [call mode: %s]" % (why, mode))
+                    continue
+                if not r["accepts"]:
+                    res.disagree("model", inp, im, mo, sp, note="the Lean model's rows are not accepted by the specification (C11_rows_exact would be contradicted)")
+                    continue
+                if not compare(im, mo):
+                    res.disagree("model", inp, im, mo, sp, note="implementation differs from the Lean model [call mode: %s]%s" % (
+                        mode, "" if sp["kind"] == "unspecified" else " (both satisfy the specification)"))
+
+
+def _raw_link(t):
+    return None if t is None else {"e": t[1]} if isinstance(t, tuple) else t.hex()
 
 
 def run_raw(ctx, impl, items, res):
     staged = []
-    for how, files, procs_b, queries in items:
+    for how, files, procs_b, queries, env in items:
         listed_b = impl.build(files, procs_b)
-        outs = [impl.query(q) for q in queries]
-        staged.append((how, files, listed_b, queries, outs))
+        outs = [impl.query(q, env) for q in queries]
+        staged.append((how, files, listed_b, queries, outs, env))
     lines = [{"op": "raw", "files": {n: (None if files.get(n) is None else files[n].hex()) for n in NET_NAMES},
-              "procs": [[pid, None if fds is None else [[fd, None if t is None else t.hex()] for fd, t in fds]] for pid, fds in listed],
-              "queries": qs} for _, files, listed, qs, _ in staged]
+              "procs": [[pid, None if fds is None else {"err": fds[1]} if isinstance(fds, tuple) else
+                         [[fd, _raw_link(t)] for fd, t in fds]] for pid, fds in listed],
+              "ntop6": bool(env.get("ntop6")), "supv6": bool(env.get("supv6", True)),
+              "queries": qs} for _, files, listed, qs, _, env in staged]
     answers = ctx.driver().batch(lines) if lines else []
     res.extra["driver_lines"] = res.extra.get("driver_lines", 0) + len(lines)
-    for (how, files, listed, queries, outs), ans, line in zip(staged, answers, lines):
+    for (how, files, listed, queries, outs, env), ans, line in zip(staged, answers, lines):
         if "bad" in ans:
             raise InfraError("driver rejected raw files: %s" % ans["bad"])
-        res.count("malformed:" + how)
+        res.count("malformed:" + how + ("/no-ipv6-text" if env.get("ntop6") else ""))
         for q, im, r in zip(queries, outs, ans["results"]):
             mo = canon_model(r["model"])
             res.count("malformed-outcome:" + (im.get("exc") or "rows"))
-            res.case(("raw", line["files"], line["procs"], q), nontrivial=im.get("kind") == "exc")
-            im_c = dict(im)
-            if im_c.get("kind") == "rows" and not im_c["rows"]:
-                im_c.pop("ntuple", None)
-            if im_c != mo:
-                res.disagree("model", {"raw": {"files": line["files"], "procs": line["procs"]}, "query": q, "source": "malformed:" + how},
+            res.case(("raw", line["files"], line["procs"], line["ntop6"], line["supv6"], q), nontrivial=im.get("kind") == "exc")
+            if not compare(im, mo):
+                res.disagree("model", {"raw": {"files": line["files"], "procs": line["procs"], "env": env}, "query": q, "source": "malformed:" + how},
                              im, mo, None, note="malformed input (%s): implementation differs from the Lean model" % how)
 
 
-FAMILIES = ["mixed", "unix_paths", "addresses", "shared", "twins", "ownerless", "mixed", "big"]
+FAMILIES = ["mixed", "unix_paths", "addresses", "shared", "twins", "ownerless", "faults", "big",
+            "mixed", "nov6", "listerr", "fatal"]
 
 CORPUS = [
     # L11: UNIX socket bound to a path containing a blank
@@ -804,13 +1101,16 @@ def correspond(ctx, res):
         items = []
         for w in CORPUS:
             p0 = w["procs"][0][0]
-            items.append(("corpus", w, [{"kind": "all", "pid": None}, {"kind": "unix", "pid": p0}, {"kind": "all", "pid": p0},
-                                        {"kind": "inet", "pid": None}]))
+            cq = [{"kind": "all", "pid": None}, {"kind": "unix", "pid": p0}, {"kind": "all", "pid": p0},
+                  {"kind": "inet", "pid": None}, {"kind": "inet", "pid": p0}]
+            for q in cq:
+                q["modes"] = modes_for(q)              # the witnesses are replayed in every call mode
+            items.append(("corpus", w, cq))
         n = ctx.n(1500, 30000)
         for i in range(n):
             fam = FAMILIES[i % len(FAMILIES)]
             w = gen_world(rng, fam)
-            items.append((fam, w, gen_queries(rng, w)))
+            items.append((fam, w, gen_queries(rng, w, family=fam)))
         # exhaustive: all 11 kinds x every (family, type) class x holder situation, system-wide and per process,
         # plus arbitrary other strings as kind
         xw = exhaustive_world()
@@ -820,18 +1120,35 @@ def correspond(ctx, res):
             if k not in KINDS:
                 others.append(k)
         xq = [{"kind": k, "pid": p} for k in KINDS + others for p in (None, 10, 20, 30)]
+        for q in xq:
+            # the 11 kinds: every call mode of the caller; other strings: one mode each, in rotation
+            ms = modes_for(q)
+            q["modes"] = ms if q["kind"] in KINDS else [ms[len(q["kind"]) % len(ms)]]
         items.append(("exhaustive", xw, xq))
+        # the same sweep with descriptor failures of every class and a process of every listing outcome
+        fw = faults_world()
+        fq = [{"kind": k, "pid": p} for k in KINDS for p in [None] + [p for p, _ in fw["procs"]]]
+        for q in fq:
+            q["modes"] = modes_for(q)
+        items.append(("exhaustive_faults", fw, fq))
+        for sup in (False, True):
+            nw = dict(exhaustive_world(), ntop6=True, supv6=sup)
+            nq = [{"kind": k, "pid": p, "modes": ["plain"]} for k in KINDS for p in (None, 10, 20, 30)]
+            items.append(("exhaustive_nov6", nw, nq))
         CH = 400
         for a in range(0, len(items), CH):
             run_worlds(ctx, impl, items[a:a + CH], res)
         res.exhaustive = ("kind sweep: all 11 kinds + %d other strings x {system-wide, each of 3 processes} over one table holding "
                           "every (family,type) class (tcp4, tcp6, udp4, udp6, unix stream/dgram/seqpacket) in 5 holder situations "
-                          "and all 11 TCP states for tcp4/tcp6; the random worlds are samples" % len(others))
+                          "and all 11 TCP states for tcp4/tcp6, each of the 11 kinds in EVERY call mode (3 system-wide, 6-7 per "
+                          "process); the same 11 kinds x every call mode over a table whose descriptors fail with each errno "
+                          "class and whose processes show each listdir outcome; the 11 kinds x 4 callers with inet_ntop "
+                          "refusing AF_INET6 (supports_ipv6() false / true); the random worlds are samples" % len(others))
         # non-string kinds: the statement only needs ValueError
         bad_objs = 0
         for k in (None, 0, 1.5, b"tcp", ("tcp",), ["tcp"], {"tcp"}, object()):
             for pid in (None, 10):
-                impl.build(py_render(xw), [[p, [[fd, render_target(t)] for fd, t in fds]] for p, fds in xw["procs"]])
+                stage_world(impl, xw)
                 im = impl.query({"kind": k, "pid": pid})
                 res.case(("nonstr", repr(type(k)), pid), nontrivial=True)
                 res.count("query:<non-str>/%s" % ("proc" if pid else "sys"))
@@ -847,12 +1164,13 @@ def correspond(ctx, res):
                 continue
             files = py_render(w)
             files2, how = mutate_files(rng, files)
-            procs_b = [[pid, None if fds is None else [[fd, render_target(t)] for fd, t in fds]] for pid, fds in w["procs"]]
+            procs_b = [[pid, render_listing(fds)] for pid, fds in w["procs"]]
             listable = [p for p, f in w["procs"] if f is not None]
             qs = [{"kind": "all", "pid": None}]
             if listable and rng.random() < 0.4 and how != "missing_v4":
                 qs.append({"kind": rng.choice(KINDS), "pid": rng.choice(listable)})
-            raw_items.append((how, files2, procs_b, qs))
+            env = {"ntop6": True, "supv6": rng.random() < 0.3} if rng.random() < 0.15 else {}
+            raw_items.append((how, files2, procs_b, qs, env))
         for a in range(0, len(raw_items), 400):
             run_raw(ctx, impl, raw_items[a:a + 400], res)
         try:
@@ -946,19 +1264,19 @@ def live_format_check():
 
 
 def _eval_world(ctx, impl, world, query):
-    """-> (violates_spec, impl_out, model_out, spec_out, why)"""
-    files = py_render(world)
-    procs_b = [[pid, None if fds is None else [[fd, render_target(t)] for fd, t in fds]] for pid, fds in world["procs"]]
-    listed_b = impl.build(files, procs_b)
-    tmap = {pid: (None if fds is None else dict((fd, t) for fd, t in fds)) for pid, fds in world["procs"]}
-    listed = [[pid, None if fds is None else [[fd, tmap[pid][fd]] for fd, _ in fds]] for pid, fds in listed_b]
-    im = impl.query(query)
+    """-> (violates_spec, impl_out, model_out, spec_out, why); the query is made in each of its call modes, the
+    first violating (else the last) outcome is reported"""
+    files, listed = stage_world(impl, world)
+    ims = impl.query_modes(query, world_env(world))
     ans = ctx.driver().batch([world_line(world, listed, [query])])[0]
     if "bad" in ans:
         raise InfraError("driver rejected a world: %s" % ans["bad"])
     r = ans["results"][0]
-    ok, why = py_accepts(r["spec"], im)
-    return (not ok), im, canon_model(r["model"]), r["spec"], why
+    for mode, im in ims:
+        ok, why = py_accepts(r["spec"], im)
+        if not ok:
+            return True, im, canon_model(r["model"]), r["spec"], "%s [call mode: %s]" % (why, mode)
+    return False, ims[-1][1], canon_model(r["model"]), r["spec"], ""
 
 
 def shrink(ctx, d):
@@ -992,10 +1310,10 @@ def shrink(ctx, d):
             for pi, (pid, fds) in enumerate(world["procs"]):
                 if budget[0] <= 0:
                     break
-                if q.get("pid") == pid and not fds:
+                if q.get("pid") == pid and not (isinstance(fds, list) and fds):
                     continue          # never remove the queried process itself
                 budget[0] -= 1
-                if fds:
+                if isinstance(fds, list) and fds:
                     procs2 = [list(p) for p in world["procs"]]
                     procs2[pi] = [pid, fds[1:]]
                 else:
@@ -1025,7 +1343,7 @@ def replay(ctx, rp, res):
             xw = exhaustive_world()
             bad = False
             for k in (None, 0, 1.5, b"tcp", ("tcp",), ["tcp"], {"tcp"}, object()):
-                impl.build(py_render(xw), [[p, [[fd, render_target(t)] for fd, t in fds]] for p, fds in xw["procs"]])
+                stage_world(impl, xw)
                 im = impl.query({"kind": k, "pid": inp.get("pid")})
                 if im != {"kind": "exc", "exc": "ValueError"}:
                     print("replay: kind=%r -> %s (expected ValueError)" % (k, im))
